@@ -1,6 +1,7 @@
 (* C20 — LFRic built-ins compute their documented operations.  Property theorems only.
    Full statement: for every class in BUILTIN_MAP, under every combination of distributed memory
-   and COMPUTE_ANNEXED_DOFS, serial or after DynamoOMPParallelLoopTrans, the generated DoF loop sets
+   and COMPUTE_ANNEXED_DOFS, serial or after OpenMP parallelisation (PARALLEL DO, or PARALLEL region + DO, reductions also with the
+   run-reproducible scheme), the generated DoF loop sets
    every DoF of the documented range to the value of the user-guide formula evaluated on the
    original inputs (reductions: the documented SUM over the owned DoFs), for all field and scalar
    values, all aliasing of arguments, all layouts, all OpenMP schedules; everything else unchanged.
@@ -22,7 +23,8 @@ Theorem C20_pointwise_loop : forall O bind out rhs l s, NoDup l ->
   (forall df, In df l -> fdat (run_loop O bind (KAssign out rhs) l s) (bind out) df = eval O bind s df rhs) /\
   (forall f d, f <> bind out \/ ~ In d l -> fdat (run_loop O bind (KAssign out rhs) l s) f d = fdat s f d) /\
   (forall j, sval (run_loop O bind (KAssign out rhs) l s) j = sval s j) /\
-  rvar (run_loop O bind (KAssign out rhs) l s) = rvar s /\ rcnt (run_loop O bind (KAssign out rhs) l s) = rcnt s.
+  rvar (run_loop O bind (KAssign out rhs) l s) = rvar s /\ rcnt (run_loop O bind (KAssign out rhs) l s) = rcnt s /\
+  lvar (run_loop O bind (KAssign out rhs) l s) = lvar s.
 Proof. exact run_loop_assign. Qed.
 Print Assumptions C20_pointwise_loop.
 
@@ -63,6 +65,31 @@ Theorem C20_omp_reduction : forall O bind rhs g, red_free g = true ->
   (forall j, sval (run_omp_reduction O bind (KReduce rhs) chunks s) j = sval s j).
 Proof. exact run_omp_reduction_sum. Qed.
 Print Assumptions C20_omp_reduction.
+
+(* REPRODUCIBLE OpenMP reductions: the array l_red(1, 1..nthreads) is zeroed, thread t accumulates its
+   iterations into l_red(1,t) (body  l_red(1,th_idx) = l_red(1,th_idx) + g(df)), then the elements are
+   added to the reduction variable: for ANY number of threads and ANY assignment of iterations to
+   threads the result is the old value plus the sum of g over all assigned iterations *)
+Theorem C20_reprod_reduction : forall O bind rhs g, red_free g = true ->
+  (forall s df, eval O bind s df rhs = lvar s + eval O bind s df g) ->
+  forall chunks s,
+  rvar (run_reprod O bind (KReduceLocal rhs) true true chunks s) = rvar s + sum_over O bind s g (List.concat chunks) /\
+  (forall f d, fdat (run_reprod O bind (KReduceLocal rhs) true true chunks s) f d = fdat s f d) /\
+  (forall j, sval (run_reprod O bind (KReduceLocal rhs) true true chunks s) j = sval s j).
+Proof. exact run_reprod_sum. Qed.
+Print Assumptions C20_reprod_reduction.
+
+(* the per-thread accumulation never touches the shared reduction variable *)
+Theorem C20_reprod_thread_local : forall O bind rhs g, red_free g = true ->
+  (forall s df, eval O bind s df rhs = lvar s + eval O bind s df g) ->
+  forall l s,
+  lvar (run_loop O bind (KReduceLocal rhs) l s) = lvar s + sum_over O bind s g l /\
+  rvar (run_loop O bind (KReduceLocal rhs) l s) = rvar s /\
+  (forall f d, fdat (run_loop O bind (KReduceLocal rhs) l s) f d = fdat s f d) /\
+  (forall j, sval (run_loop O bind (KReduceLocal rhs) l s) j = sval s j) /\
+  rcnt (run_loop O bind (KReduceLocal rhs) l s) = rcnt s.
+Proof. exact run_loop_reduce_local. Qed.
+Print Assumptions C20_reprod_thread_local.
 
 (* setval_random: the n-th executed iteration receives the n-th number of the generator; frame *)
 Theorem C20_random_loop : forall O bind out l s, NoDup l ->
@@ -107,7 +134,7 @@ Proof. exact all_dm_reductions_global. Qed.
 Print Assumptions C20_dm_reductions_sum_owned.
 
 (* nothing is left out: every class in BUILTIN_MAP appears under all four DM x annexed settings,
-   serially and (where DynamoOMPParallelLoopTrans accepts) with OpenMP; the guide, the metadata file
+   serially and (where the transformations accept) with OMP PARALLEL DO and OMP PARALLEL + OMP DO; reductions also with reproducible reductions; the guide, the metadata file
    and BUILTIN_MAP list the same names *)
 Theorem C20_every_builtin_every_setting : forall n, In n GenCode.builtin_names -> forall dm ann, exists i d,
   In (i, d) GenObl.table /\ i_name i = n /\ i_dm i = dm /\ i_annexed i = ann /\ i_omp i = None.
@@ -115,9 +142,27 @@ Proof. exact every_builtin_every_setting. Qed.
 Print Assumptions C20_every_builtin_every_setting.
 
 Theorem C20_every_omp_builtin_every_setting : forall n, In n GenObl.omp_builtin_names -> forall dm ann, exists i d,
-  In (i, d) GenObl.table /\ i_name i = n /\ i_dm i = dm /\ i_annexed i = ann /\ i_omp i <> None.
+  In (i, d) GenObl.table /\ i_name i = n /\ i_dm i = dm /\ i_annexed i = ann /\ omp_code i = 1%nat.
 Proof. exact every_omp_builtin_every_setting. Qed.
 Print Assumptions C20_every_omp_builtin_every_setting.
+
+(* OMP DO inside an OMP PARALLEL region (Dynamo0p3OMPLoopTrans + OMPParallelTrans) *)
+Theorem C20_every_region_builtin_every_setting : forall n, In n GenObl.region_builtin_names -> forall dm ann, exists i d,
+  In (i, d) GenObl.table /\ i_name i = n /\ i_dm i = dm /\ i_annexed i = ann /\ omp_code i = 2%nat.
+Proof. exact every_region_builtin_every_setting. Qed.
+Print Assumptions C20_every_region_builtin_every_setting.
+
+(* run-reproducible OpenMP reductions ({"reprod": True}) for every built-in that writes a scalar; and
+   every built-in whose documented definition is a SUM is one of those *)
+Theorem C20_every_reduction_reprod_every_setting : forall n, In n GenObl.reprod_builtin_names -> forall dm ann, exists i d,
+  In (i, d) GenObl.table /\ i_name i = n /\ i_dm i = dm /\ i_annexed i = ann /\ omp_code i = 3%nat.
+Proof. exact every_reduction_reprod_every_setting. Qed.
+Print Assumptions C20_every_reduction_reprod_every_setting.
+
+Theorem C20_sum_builtins_are_reductions :
+  forallb (fun p => negb (is_reduction_spec (d_spec (snd p))) || existsb (String.eqb (i_name (fst p))) GenObl.reduction_builtin_names) GenObl.table = true.
+Proof. exact sum_builtins_are_reductions. Qed.
+Print Assumptions C20_sum_builtins_are_reductions.
 
 Theorem C20_names_agree :
   forallb (fun n => existsb (String.eqb n) GenDoc.doc_names) GenCode.builtin_names = true /\
